@@ -41,6 +41,8 @@ ALLOW = [
     (r"^can not delete variable '.*' referenced in nested scope$", "deleting a variable used by a nested scope (property text; tests/errors/e_del.pyx)"),
     (r"^Deletion of (global )?C names not supported|^Cannot assign to or delete this|^Deletion of non-Python", "docs: del of non-Python objects"),
     (r"^'?yield'? (inside|not supported|outside)|^'yield from' ", "docs/limitations: yield in unsupported places"),
+    (r"directive must be set to|^Expected \"=\" in option|^Unknown option|directive cannot be set from a string|^Invalid directive|compiler directive is not allowed in",
+     "a '# cython: ...' header comment is Cython syntax (docs: compiler directives); a mutant that damages it is rejected by design"),
 ]
 # PEP 695 (type aliases, generic syntax): docs/src/userguide/limitations: not supported -> sources using it are not generated;
 # a mutant that happens to use it is recognised from the source (ast has TypeAlias / type_params)
@@ -165,7 +167,8 @@ def decode(text):
     try:
         node = Parsing.p_int_literal(s)
     finally:
-        errs = Errors.release_errors(ignore=True)
+        errs = list(Errors.held_errors())
+        Errors.release_errors(ignore=True)
     if errs:
         return ["error", str(errs[0].message_only)[:80]]
     try:
@@ -560,6 +563,10 @@ def classify(src, ext, vd, forced=None):
                   "header_directive_warn_nogil_value", "wrong_scope_header_directive", "lambda_after_constant_true_return"):
             if k in f and _crash_matches(k, detail):
                 return k
+        if "RecursionError" in detail:
+            return "deep_nesting_recursion_error"
+        if "unop_node" in detail and "ValueError" in detail:
+            return "negated_int_literal_over_4300_digits"
         if "def_in_match_case" in f and "cf_is_null" in detail:
             return "def_in_match_case_inline_call_crash"
         return "internal_crash:" + re.sub(r"[^A-Za-z0-9_@:.]+", "_", detail.split(": ")[0])[:70]
@@ -571,6 +578,8 @@ def classify(src, ext, vd, forced=None):
         if "imag_literal_leading_zero_underscore" in f and (
                 "Syntax error in simple statement list" in detail or re.search(r"found '_[0-9_]*[jJ]'", detail)):
             return "imag_literal_leading_zero_underscore"
+        if "f-string expression" in detail:
+            detail = detail.split(":")[0]
         return "valid_python_rejected:" + re.sub(r"'[^']*'", "'_'", detail)[:60].strip().replace(" ", "_")
     return kind + ":" + re.sub(r"[^A-Za-z0-9_]+", "_", detail)[:50]
 
